@@ -101,6 +101,12 @@ class Verifier:
             except Unsupported as u:
                 rep = contract.FunctionReport(key)
                 rep.out_of_subset.append(str(u))
+            except (z3.Z3Exception, TypeError, AttributeError, KeyError, IndexError, ValueError, AssertionError, RecursionError) as ex:
+                # the executor met a construct it handles wrongly (typically after a restructuring of the code): no obligation of
+                # this function is trusted, the function counts as outside the subset
+                import traceback
+                rep = contract.FunctionReport(key)
+                rep.out_of_subset.append('executor error %s: %s [%s]' % (type(ex).__name__, str(ex)[:200], traceback.format_exc().strip().split('\n')[-3][:160]))
             reports.append(rep)
             rep.key = key
             if '#' in key:
